@@ -56,7 +56,7 @@ claim("C18", _ACC + "; round trip proved for claims sets; KDF contexts observed 
 
 
 claim("C19", "Coq proof over all builder states and all call sequences (header builder = independently written documented effect; invariants by induction over fold_left of the step function; exact panic ranges; frame and override laws) + model-based testing of call histories on every public builder method",
-      "Theorems: the header builder's step equals an independently written record-update specification for every op and hence for every call sequence; no call sequence yields a header with both IV and Partial IV; value()/param()/claim()/private_claim() panic exactly on the reserved ranges and append otherwise; every protected-header setter discards retained wire bytes; setters change only their field; later setters override; key constructors populate exactly kty and parameters. The proofs' weight is in the invariants; a copy-paste slip in one macro-generated Rust setter is caught by running generated call histories (all 14 builders, every public method) on the implementation and the proved model.",
+      "Theorems: the header builder's step equals an independently written record-update specification for every op and hence for every call sequence; no call sequence yields a header with both IV and Partial IV; value()/param()/claim()/private_claim() panic exactly on the reserved ranges and append otherwise; every protected-header setter discards retained wire bytes; for ALL 14 builders: the exact effect of every call (the one field replaced or appended to, all others unchanged; creators put the closure's output into exactly one field, with exact Ok / Err / Panic conditions), a frame law for every returning call, later setters override earlier ones, accumulation laws for the adders, and commutation of calls with disjoint read/write footprints; key constructors populate exactly kty and parameters. The proofs' weight is in the invariants; a copy-paste slip in one macro-generated Rust setter is caught by running generated call histories (all 14 builders, every public method) on the implementation and the proved model.",
       COMMON_NOTE, "DESIGN.md 7 (C19)")
 claim("C20", "Coq proof (canonicalize = stable sort of the extras under the label order; emitted keys strictly ascending in the RFC 8949 / RFC 7049 order of their encodings; permutation; idempotence; known class label Int(0) proved as refutation) + all-permutations correspondence with an independent Python sortedness oracle",
       "Theorems for every well-formed key and both orderings: canonicalize only permutes the extra parameters, the emitted map's encoded keys are strictly ascending (typed labels 1..5 encode lowest except against label 0), sorting is idempotent; with an extra label Int(0) the statement is false and a witness is proved (known finding F3). The implementation's output is checked for strictly ascending encoded keys by an independent parser, for unchanged content, no-op on repetition, and decode/re-encode stability.",
@@ -77,14 +77,14 @@ claim("C01", "Coq proof of panic-freedom / totality of the model (every index, r
       "Theorems: every value-level decoder and every byte-level entry point (untagged/tagged) returns Ok or Err for every input - never Panic, never OutOfFuel (fuel sufficiency proved); every encoder is total on every in-memory value; on decoded messages the tbs/verify/MAC/decrypt helpers do not panic under their documented preconditions and panic exactly where documented otherwise; protected-header re-parsing is bounded by the budget read from the source (16, F1 repair). Partial by nature: stack depth per frame, allocation and wall time are not expressible in the model; they are explored by running exhaustive short inputs for all entry points, mutated structured inputs, CBOR nesting 254..300, declared-length bombs, protected-nesting depth up to 5000 (10^5 thorough) and inputs up to 1 MiB (16 MiB thorough) on a default-size thread, detecting panics, aborts and hangs.",
       COMMON_NOTE, "DESIGN.md 7 (C01), 8 (F1)")
 claim("C06", "Coq proof (for any builder state at creation time and any later state that keeps protected/payload/signature: encode, decode, verify hands the closure exactly the stored signature/tag/ciphertext and the bytes the creator was given; injectivity gives sensitivity) + builder-history correspondence with independent Python structures",
-      "Theorems for all seven creating builders (Sign1 embedded/detached, Sign with signer index, Mac0, Mac, Encrypt0, Encrypt, recipient): if the creator was given tbs in state st and the message later keeps its protected header, payload and signature, then after to_value/from_value (and to_vec/from_slice, tagged or not, for wire-normal values) the verify/decrypt helper returns exactly f(stored signature, tbs); a failing fallible creator yields its error and no message; any change to context, protected headers, AAD or payload changes the bytes. Decode success is a hypothesis (conclusion of C11 where proved). Implementation: generated builder histories with create calls, then encode (tagged/untagged), decode, verify with equal and perturbed AAD, compared with the model and with Python-computed structures.",
+      "Theorems for all seven creating builders (Sign1 embedded/detached, Sign with signer index, Mac0, Mac, Encrypt0, Encrypt, recipient): if the creator was given tbs in state st and the message later keeps its protected header, payload and signature, then after to_value/from_value (and to_vec/from_slice, tagged or not, for wire-normal values) the verify/decrypt helper returns exactly f(stored signature, tbs); a failing fallible creator yields its error and no message; any change to context, protected headers, AAD or payload changes the bytes. In a second group of theorems (suffix _total) encoding and decoding success are conclusions: for every well-formed built message (T_bwf) the whole chain create, serialise, parse, verify/decrypt succeeds and returns f(stored, tbs); for Sign1 also the tbs computation and the builder step (sign1_builder_sign_then_verify_total). Implementation: generated builder histories with create calls, then encode (tagged/untagged), decode, verify with equal and perturbed AAD, compared with the model and with Python-computed structures.",
       COMMON_NOTE, "DESIGN.md 7 (C06)")
-claim("C07", "Coq proof, PARTIAL with one known class (byte layer: parser output is in normal form and re-serialise/re-parse is the identity outside tag-2/3-over-short-bstr, witness proved; value layer fixed point for Label, PartyInfo, CoseKey, CoseKeySet, ClaimsSet; protected slots verbatim) + decode/encode/decode/encode run on every accepted generated input of every type",
-      "Theorems: from_reader output satisfies value_nf0 and depth <= 256; for values without the bad-bignum shape, from_reader (ser v) = v; decode=>encode=>decode fixed point at value and byte level for the five header-free types; F4 witness. Missing as a theorem: the field-by-field fixed point of unprotected Header maps (hence of message types); decided there by the correspondence run: for every accepted input (structured, mutated, non-canonical), the implementation's decode(encode(decode b)) = decode b and second encoding = first, and its bytes equal the model's.",
-      COMMON_NOTE, "DESIGN.md 7 (C07), 8 (F4)")
-claim("C11", "Coq proof, PARTIAL (full encode/decode round trip for Label, PartyInfo, CoseKey, CoseKeySet, ClaimsSet; protected-slot shape, is_empty <-> all fields empty, distinct keys and totality of all encoders) + three-way run: implementation vs model vs independent Python encoder, decode-back on the implementation, definite-length check by an independent parser",
-      "Theorems: well-formed keys, key sets, party infos, labels and claims sets encode to a value that decodes back to them (also through bytes for wire-normal values); the protected slot is the stored bytes / h'' / bstr(encoded map); Header::is_empty holds iff all eight fields are empty; header and key maps have distinct keys; no encoder panics. Missing as a theorem: the field-by-field round trip of Header and the message types; decided there by comparing the implementation's output byte-for-byte with an independent Python encoder of the CDDL shape (every field singly and in combination, single-field protected headers in all eight message types) and decoding it back.",
-      COMMON_NOTE, "DESIGN.md 7 (C11)")
+claim("C07", "Coq proof with one known class (byte layer: parser output is in normal form and re-serialise/re-parse is the identity outside tag-2/3-over-short-bstr, witness proved; value layer decode=>encode=>decode fixed point for EVERY type incl. Header, ProtectedHeader, CoseSignature, the seven message structures and the KDF context types; protected slots verbatim at every nesting level; byte-level fixed point for every type under a wire-normality hypothesis on the re-encoded value) + decode/encode/decode/encode run on every accepted generated input of every type",
+      "Theorems: from_reader output satisfies value_nf0 and depth <= 256; for values without the bad-bignum shape, from_reader (ser v) = v; T_decode_encode_fixed_point for all 16 types (if from_value v = Ok m then to_value m = Ok v' and from_value v' = Ok m); messages_bytes_fixed_point (from_slice b = Ok m, to_value m = Ok v', v' wire-normal and depth <= 256 => to_vec m = Ok b', from_slice b' = Ok m); F4 witness. Remaining gap: wire-normality of the RE-ENCODED value is a hypothesis of the byte-level theorems for header-carrying types rather than derived from the parser-output theorem; the correspondence run decides it: for every accepted input (structured, mutated, non-canonical), the implementation's decode(encode(decode b)) = decode b and second encoding = first, and its bytes equal the model's.",
+      COMMON_NOTE, "DESIGN.md 7 (C07), 8 (F4), 13.3")
+claim("C11", "Coq proof (encode/decode round trip 'wf x -> to_value x = Ok v /\\ from_value v = Ok (assign x)' for every type incl. Header, the message structures and the KDF context types, and through bytes for wire-normal values; protected-slot shape, is_empty <-> all fields empty, distinct keys and totality of all encoders) + three-way run: implementation vs model vs independent Python encoder, decode-back on the implementation, definite-length check by an independent parser",
+      "Theorems: every well-formed value (bwf predicates; shown non-vacuous: every decoded value satisfies them) encodes to a value that decodes back to it with protected bytes assigned, for all 16 types, also through bytes for wire-normal values; the protected slot is the stored bytes / h'' / bstr(encoded map); Header::is_empty holds iff all eight fields are empty; header and key maps have distinct keys; no encoder panics. 'Exactly the populated fields under their registered labels' is carried by the accept-iff specifications (C08-C10, C18) through which the round trips are proved, and independently by comparing the implementation's output byte-for-byte with an independent Python encoder of the CDDL shape (every field singly and in combination, single-field protected headers in all eight message types) and decoding it back.",
+      COMMON_NOTE, "DESIGN.md 7 (C11), 13.3")
 
 def main():
     props = sorted(TITLES)
